@@ -826,6 +826,68 @@ def P_seqLegacy (m : SeqMon) (n : Bytes) (out : CallOut) : Prop :=
 /-- *Refused ⇒ untouched*: a call that fails reached no tool handler. -/
 def P_seqQuiet (out : CallOut) : Prop := ∀ code, out ≠ .notOk code false
 
+/-- *the mirror is that of the server that serves the request*: on a 2026-07-28 session, a call routed to the handler's
+second server — valid annotations, valid arguments — by a client that has just listed that server's tools goes through
+and carries exactly the `Mcp-Param-*` headers THAT server's definition demands. -/
+def P_seqCallB (c : B64) (m : SeqMon) (n : Bytes) (a : Args) (hdrs : ParamHdrs) (out : CallOut) : Prop :=
+  m.newProto = true → ∀ ps, toolDef m.serverB n = some ps → ToolValid ps → ArgsValidDoc ps a →
+    out = .okSame ∧ P_generated c ps a hdrs
+
+def P_seqLegacyB (m : SeqMon) (n : Bytes) (out : CallOut) : Prop :=
+  m.newProto = false → (toolDef m.serverB n).isSome = true → out = .okSame
+
+theorem sound_seq_callB {c : B64} {m : SeqMon} {n : Bytes} {a : Args} {hdrs : ParamHdrs} {out : CallOut} {cl : Clause}
+    (h : (seqMonStep c m (.callB n a) (.called hdrs out)).2 = some cl) :
+    ((cl = .seqOtherServer ∨ cl = .seqAgree ∨ (∃ b, cl = .genMirror b) ∨ cl = .genUnbound) ∧
+        ¬ P_seqCallB c m n a hdrs out) ∨
+    (cl = .seqLegacy ∧ ¬ P_seqLegacyB m n out) ∨
+    (cl = .e2eReached ∧ ¬ P_seqQuiet out) := by
+  simp only [seqMonStep] at h
+  have hreach : ∀ {o : CallOut}, (match o with | .notOk _ false => some Clause.e2eReached | _ => none) = some cl →
+      cl = .e2eReached ∧ ¬ P_seqQuiet o := by
+    intro o ho
+    split at ho
+    · cases ho
+      exact ⟨rfl, fun hP => hP _ rfl⟩
+    · cases ho
+  split at h
+  · rename_i ps hps
+    split at h
+    · rename_i hp
+      split at h
+      · rename_i hc
+        simp only [Bool.and_eq_true] at hc
+        obtain ⟨htv, hav⟩ := hc
+        have htv' := (toolValidB_iff ps).mp htv
+        have hav' := (argsValidB_iff ps a).mp hav
+        left
+        split at h
+        · rename_i hne
+          refine ⟨?_, fun hP => ?_⟩
+          · split at h <;> cases h
+            · exact Or.inl rfl
+            · exact Or.inr (Or.inl rfl)
+          · have := (hP hp ps hps htv' hav').1
+            rw [this] at hne
+            simp at hne
+        · rename_i hg0
+          refine ⟨?_, fun hP => sound_gen h ((hP hp ps hps htv' hav').2)⟩
+          obtain ⟨_, _, hcase⟩ := genMonitor_fires h
+          rcases hcase with ⟨b, _, hb, _⟩ | ⟨hb, _⟩
+          · exact Or.inr (Or.inr (Or.inl ⟨b, hb⟩))
+          · exact Or.inr (Or.inr (Or.inr hb))
+      · exact Or.inr (Or.inr (hreach h))
+    · rename_i hp
+      split at h
+      · rename_i hne
+        cases h
+        refine Or.inr (Or.inl ⟨rfl, fun hP => ?_⟩)
+        have := hP (by simpa using hp) (by simp [hps])
+        rw [this] at hne
+        simp at hne
+      · cases h
+  · exact Or.inr (Or.inr (hreach h))
+
 /-- *list_changed beats the cache*: on a 2026-07-28 session, once the client has handled a list_changed that followed the
 server's last change of its tools, a `ListTools` answered from the client's cache (the server was not asked) returns the
 server's current page — the definitions `CallTool` takes the `Mcp-Param-*` mirror from are the server's. -/
@@ -1003,6 +1065,11 @@ example : (seqMonStep idCodec wMon (.call wA wArgs) (.called [] (.notOk (some (-
     (seqMonStep idCodec wMon (.call wA wArgs) (.called wHdrs (.notOk (some (-32020)) true))).2 = some .seqRefusedExact ∧
     (seqMonStep idCodec { wMon with newProto := false } (.call wA wArgs) (.called [] (.notOk none true))).2 = some .seqLegacy ∧
     (seqMonStep idCodec { wMon with listed := [] } (.call wA wArgs) (.called [] (.notOk none false))).2 = some .e2eReached := by decide
+/-- Seeded change C12-m16, two servers behind one handler: the second server's `a` has no annotation, the client (rightly)
+sends no header, the handler refuses — judged by the first server's `a`. -/
+example : (seqMonStep idCodec { wMon with serverB := [(wA, wPlain)] } (.callB wA wArgs) (.called [] (.notOk (some (-32020)) true))).2 = some .seqOtherServer ∧
+    (seqMonStep idCodec { wMon with serverB := [(wA, wPlain)] } (.callB wA wArgs) (.called [] .okSame)).2 = none ∧
+    (seqMonStep idCodec { wMon with serverB := [(wA, wProps)] } (.callB wA wArgs) (.called [] (.notOk (some (-32020)) true))).2 = some .seqAgree := by decide
 /-- Seeded change C12-m13 as the observer sees it: tool `a` listed (response in flight), re-registered with the annotation,
 list_changed handled, the overtaken response arrives; the next `ListTools` is answered from the cache with the OLD page. -/
 def wMonFresh : SeqMon :=
